@@ -293,7 +293,15 @@ class Check:
               "wall_s": round(time.time() - self.t0, 2), "violations": nviol}
         problems = validate_evidence(ev)
         os.makedirs(EVIDENCE_DIR, exist_ok=True)
-        with open(os.path.join(EVIDENCE_DIR, self.prop + ".json"), "w") as f:
+        if self.replay:
+            # re-running one recorded case says nothing about coverage: keep the
+            # evidence of the last full run, write this run's beside the replays
+            problems = []
+            evpath = os.path.join(REPLAY_DIR, "last-replay-%s.evidence.json" % self.prop)
+            os.makedirs(REPLAY_DIR, exist_ok=True)
+        else:
+            evpath = os.path.join(EVIDENCE_DIR, self.prop + ".json")
+        with open(evpath, "w") as f:
             json.dump(ev, f, indent=1, default=str)
             f.write("\n")
         for key, (n, what) in sorted(self.known_hits.items()):
